@@ -69,7 +69,11 @@ theorem readBodyToVec_vec (c : Conn) (b : BodyVal) (h : (readBodyToVec c).2 = .o
       cases e
       · simp only [Bool.false_eq_true, if_false] at h
         cases len with
-        | none => simp only [Except.ok.injEq] at h; exact ⟨_, h.symm⟩
+        | none =>
+          simp only at h
+          split at h
+          · cases h
+          · simp only [Except.ok.injEq] at h; exact ⟨_, h.symm⟩
         | some n =>
           simp only at h
           split at h
@@ -81,7 +85,11 @@ theorem readBodyToVec_vec (c : Conn) (b : BodyVal) (h : (readBodyToVec c).2 = .o
         | ok u =>
           simp only [hw] at h
           cases len with
-          | none => simp only [Except.ok.injEq] at h; exact ⟨_, h.symm⟩
+          | none =>
+            simp only at h
+            split at h
+            · cases h
+            · simp only [Except.ok.injEq] at h; exact ⟨_, h.symm⟩
           | some n =>
             simp only at h
             split at h
